@@ -128,6 +128,7 @@ func checkC05(r *harness.Run) harness.Coverage {
 			}
 			r.Note("step_pass", fmt.Sprintf("%v pumped families x k in {8,16,32,64,128}: %d calls, %d statements counted on the instrumented build; budget %v statements per call; growth must stay below 3x per doubling", side.Notes["pumped_families"], stepCalls, statements, side.Notes["statement_budget"]))
 		}
+		r.Note("map_order_pass", fmt.Sprintf("%d (expression, document) pairs with object-member iteration explored over every sequence of map-iteration orders on the instrumented build (deviation bound %v, unbounded for calls with few requests): %d executions, none may panic", side.Counters["maporder_pairs"], side.Notes["maporder_deviation_bound"], side.Counters["maporder_executions"]))
 		os.Remove(harness.Root + "/bin/c05-steps.json")
 	} else {
 		r.Note("step_pass", "not run (instrumented pass result missing)")
